@@ -33,6 +33,16 @@ type thread struct {
 	wake   chan struct{}
 	driver bool
 	done   bool
+	alts   int // > 1: parked at a choice point with that many alternatives
+	picked int // the alternative the scheduler selected
+}
+
+// entry is one schedulable alternative: a parked thread, or one of the
+// alternatives of a thread parked at a choice point.
+type entry struct {
+	th   *thread
+	alt  int
+	name string
 }
 
 // Point is one scheduling decision.
@@ -130,18 +140,27 @@ func creatorGoid() uint64 {
 
 // Gate parks the calling goroutine until the scheduler selects it.  Calls
 // from the root goroutine, or when no scheduler is active, pass through.
-func (s *Sched) Gate(label string) {
+func (s *Sched) Gate(label string) { s.park(label, 1) }
+
+// Choose parks the calling goroutine at a data choice point with n
+// alternatives (which ready case a select statement takes) and returns the one
+// the scheduler selected; alternative 0 is the default, any other one costs a
+// deviation exactly as a preemption does.  Without an active scheduler, and on
+// the root goroutine, it returns -1 (the caller keeps Go's own choice).
+func (s *Sched) Choose(label string, n int) int { return s.park(label, n) }
+
+func (s *Sched) park(label string, alts int) int {
 	if !s.active.Load() {
-		return
+		return -1
 	}
 	gid := goid()
 	if gid == s.rootGoid {
-		return
+		return -1
 	}
 	s.mu.Lock()
 	if !s.active.Load() {
 		s.mu.Unlock()
-		return
+		return -1
 	}
 	th := s.byGoid[gid]
 	if th == nil {
@@ -158,9 +177,14 @@ func (s *Sched) Gate(label string) {
 		s.threads = append(s.threads, th)
 	}
 	th.label = label
+	th.alts = alts
+	th.picked = 0
 	s.parked = append(s.parked, th)
 	s.mu.Unlock()
-	<-th.wake
+	if _, ok := <-th.wake; !ok {
+		return -1 // released for tear-down
+	}
+	return th.picked
 }
 
 // Go starts a named driver thread.  It is parked at its "start" gate until
@@ -197,15 +221,21 @@ func (s *Sched) Run() {
 	for step := 0; ; step++ {
 		synctest.Wait()
 		s.mu.Lock()
-		enabled := append([]*thread(nil), s.parked...)
+		var enabled []entry
+		for _, th := range s.parked {
+			enabled = append(enabled, entry{th, 0, th.name})
+			for a := 1; a < th.alts; a++ {
+				enabled = append(enabled, entry{th, a, th.name + "?" + strconv.Itoa(a)})
+			}
+		}
 		s.mu.Unlock()
 		sort.Slice(enabled, func(i, j int) bool { return enabled[i].name < enabled[j].name })
 		runningEnabled := false
 		if s.lastRun != nil && !s.RoundRobin {
-			for i, th := range enabled {
-				if th == s.lastRun {
+			for i, e := range enabled {
+				if e.th == s.lastRun && e.alt == 0 {
 					copy(enabled[1:i+1], enabled[:i])
-					enabled[0] = th
+					enabled[0] = e
 					runningEnabled = true
 					break
 				}
@@ -217,14 +247,14 @@ func (s *Sched) Run() {
 			for k < len(enabled) && enabled[k].name <= s.lastRun.name {
 				k++
 			}
-			rot := append(append([]*thread{}, enabled[k:]...), enabled[:k]...)
+			rot := append(append([]entry{}, enabled[k:]...), enabled[:k]...)
 			enabled = rot
 		}
 		names := make([]string, 0, len(enabled)+1)
 		labels := make([]string, 0, len(enabled)+1)
-		for _, th := range enabled {
-			names = append(names, th.name)
-			labels = append(labels, th.label)
+		for _, e := range enabled {
+			names = append(names, e.name)
+			labels = append(labels, e.th.label)
 		}
 		if s.clockArmed {
 			names = append(names, ClockName)
@@ -263,7 +293,8 @@ func (s *Sched) Run() {
 			// let timers that fired at this instant run their callbacks
 			continue
 		}
-		th := enabled[choice]
+		th := enabled[choice].th
+		th.picked = enabled[choice].alt
 		s.mu.Lock()
 		for i, p := range s.parked {
 			if p == th {
